@@ -36,6 +36,9 @@ type boundedResult struct {
 	Output     string
 }
 
+// boundedTier is handed to the harnesses as VERIF_TIER: under "thorough" several of them explore one step deeper.
+var boundedTier = "quick"
+
 var boundedClassRe = regexp.MustCompile(`^BOUNDED-VIOLATION class=(\S+)`)
 
 func boundedTemplates(prop string) []string {
@@ -83,12 +86,12 @@ func runBounded(prop, tmplPath, workDir string) boundedResult {
 	ovData, _ := json.Marshal(ov)
 	ovFile := filepath.Join(workDir, base+".overlay.json")
 	os.WriteFile(ovFile, ovData, 0o644)
-	ctx, cancel := context.WithTimeout(context.Background(), 900*time.Second)
+	ctx, cancel := context.WithTimeout(context.Background(), 1800*time.Second)
 	defer cancel()
 	t0 := time.Now()
-	cmd := exec.CommandContext(ctx, "go", "test", "-tags", "verif", "-overlay", ovFile, "-v", "-vet=off", "-count=1", "-timeout", "600s", "-run", "^(TestGovcBounded|TestGovcReplay)$", "./"+res.Pkg+"/")
+	cmd := exec.CommandContext(ctx, "go", "test", "-tags", "verif", "-overlay", ovFile, "-v", "-vet=off", "-count=1", "-timeout", "1500s", "-run", "^(TestGovcBounded|TestGovcReplay)$", "./"+res.Pkg+"/")
 	cmd.Dir = root
-	cmd.Env = append(os.Environ(), "GOFLAGS=-mod=mod", "GOPROXY=off", "GOSUMDB=off", "GOTOOLCHAIN=local")
+	cmd.Env = append(os.Environ(), "GOFLAGS=-mod=mod", "GOPROXY=off", "GOSUMDB=off", "GOTOOLCHAIN=local", "VERIF_TIER="+boundedTier)
 	b, _ := cmd.CombinedOutput()
 	res.Seconds = time.Since(t0).Seconds()
 	res.Output = string(b)
@@ -126,6 +129,9 @@ func runBounded(prop, tmplPath, workDir string) boundedResult {
 		}
 		res.Violations = append(res.Violations, boundedViolation{Name: "bounded." + base + "#search", Detail: res.Output[i : i+j]})
 		sawSummary = true
+	}
+	if strings.Contains(res.Output, "no tests to run") {
+		res.ToolError = "bounded harness " + res.File + " contains no test named TestGovcBounded or TestGovcReplay"
 	}
 	if !sawSummary && res.ToolError == "" && regexp.MustCompile(`(?m)^ok\s`).MatchString(res.Output) {
 		res.Summary["result"] = "the whole bound was explored without a failing case"
